@@ -304,6 +304,7 @@ pub fn run(ctx: &Ctx, prop: &str) -> ! {
         _ => Prop::C42,
     };
     let mut rep = Report::new(ctx, "exploration");
+    rep.crash_guard = true;
     common_assumptions(&mut rep, true);
     let thorough = ctx.tier == Tier::Thorough;
     let seq_n = ctx.pick(2_000, 60_000);
